@@ -104,8 +104,8 @@ pub fn cfg_for(driver: &str, tier: &str) -> Option<(RCfg, u32)> {
             let mut c = base("idle");
             c.initial_sets = vec![vec![PLAIN1], vec![PLAIN1, PLAIN1]];
             c.max_actors = 2;
-            c.depth = if q { 6 } else { 9 };
-            c.max_idles = if q { 3 } else { 4 };
+            c.depth = if q { 7 } else { 9 };
+            c.max_idles = if q { 4 } else { 5 };
             c.top_ops = false;
             c.idles = true;
             c.cb_idle_ops = true;
